@@ -1381,8 +1381,8 @@ func TestVerifC15(t *testing.T) {
 	)
 
 	oldAuth := scripting.AuthorizedFunc
-	scripting.AuthorizedFunc = func(session *router.Session, user string, table string, operations ...string) bool {
-		tb := strings.TrimPrefix(table, "d1.")
+	scripting.AuthorizedFunc = func(session *router.Session, user string, dsn string, table string, operations ...string) bool {
+		tb := table
 		ok := true
 
 		for _, op := range operations {
